@@ -67,21 +67,22 @@ class ParseUserData:
             if userDataParserMod in userDataParsers:
                 cls = userDataParsers[userDataParserMod]
             else:
-                cls = importlib.import_module(userDataParserMod)
+                # Only a failing import means that there is no parser module.
+                # An ImportError raised later, while the parser runs, must not
+                # disable the parser for the sections that follow.
+                try:
+                    cls = importlib.import_module(userDataParserMod)
+                except ImportError:
+                    # No print for informational purposes, this is encountered often, e.g. PHYP
+                    cls = None
                 userDataParsers[userDataParserMod] = cls
             if self.data:
                 mv = memoryview(self.data)
                 if cls is None:
-                    # The module, which was previously checked, is not found.
+                    # The module is not found.
                     return json.dumps(hexdump(mv))
                 else:
                     return cls.parseUDToJson(self.subType, self.version, mv)
-        except ImportError:
-            userDataParsers[userDataParserMod] = None
-            # No print for informational purposes, this is encountered often, e.g. PHYP
-            if self.data:
-                mv = memoryview(self.data)
-                return json.dumps(hexdump(mv))
         except Exception as e:
             d = dict()
             # in case we do NOT have data, dump the Error at a minimum
